@@ -679,6 +679,19 @@ def gen_subquery():
     ]
     for tag, e in scalars:
         out.append(("subquery", tag, sel(T, [(TA, "c0"), (TB, "c1"), (e, "c2")]), 2))
+    # a subquery correlated with TWO outer tables through columns of the same name (t.a and u.a): its result depends on both
+    W = sub(sel(U, [(UA, "a"), (UB, "b")]), "w")
+    WA, WB = C("w.a"), C("w.b")
+    outer = join("INNER", T, U, ("eq", TB, UB))
+    two = [
+        ("scalar-two-outer-tables", ("scalar", sel(W, [(agg("COUNT_STAR"), "x")], where=("or", ("eq", WA, TA), ("eq", WA, UA))))),
+        ("scalar-two-outer-tables", ("scalar", sel(W, [(agg("SUM", WB), "x")], where=("or", ("eq", WA, TA), ("lt", WA, UA))))),
+        ("exists-two-outer-tables", ("exists", sel(W, [(L(1), "x")], where=("and", ("neq", WA, TA), ("eq", WA, UA))))),
+        ("in-two-outer-tables", ("insub", TB, sel(W, [(WB, "x")], where=("or", ("eq", WA, TA), ("eq", WA, UA))))),
+    ]
+    for tag, e in two:
+        out.append(("subquery", tag, sel(outer, [(TA, "c0"), (UA, "c1"), (e, "c2")]), 2))
+        out.append(("subquery", tag, sel(join("LEFT", T, U, ("eq", TB, UB)), [(TA, "c0"), (UA, "c1"), (e, "c2")]), 2, False))
     return out
 
 
